@@ -67,6 +67,36 @@ func (r *Rec) R(id, x int) { r.log("r", id, x) }
 // V is an effectful expression: logs and returns x.
 func (r *Rec) V(id, x int) int { r.log("v", id, x); return x }
 
+// MK / MV encode map keys and values of the map-range scenarios: key 0 is the nil
+// interface key, a nil value is -1.
+func MK(k int) any {
+	if k == 0 {
+		return nil
+	}
+	return k
+}
+func UK(k any) int {
+	if k == nil {
+		return 0
+	}
+	return k.(int)
+}
+func MV(k, nilval int) any {
+	if k == nilval {
+		return nil
+	}
+	return 10 * k
+}
+func UV(v any) int {
+	if v == nil {
+		return -1
+	}
+	return v.(int)
+}
+
+// X logs the evaluation of a range expression.
+func (r *Rec) X(id int) { r.log("x", id, 0) }
+
 // N logs the construction of a generator instance (arguments).
 func (r *Rec) N(id int, vals ...int) { r.log("n", id, vals...) }
 
